@@ -156,8 +156,10 @@ def check_exclude_proof(led):
                 continue
             npaths += 1
             cc, o = out[1]
-            if sorted(cc.attrs['excluded_dofs']) != excl:
-                probs.append('excluded_dofs %s' % (cc.attrs['excluded_dofs'],))
+            # frame: the list of prescribed amplitudes is the shell's own state, paired by position with excluded_dofs_ck (calc_full_c zips
+            # them): partitioning a matrix must leave it exactly as _rebuild made it, order included
+            if [int(x) if not isinstance(x, P) else x for x in cc.attrs['excluded_dofs']] != excl:
+                probs.append('excluded_dofs is %s after the call, _rebuild made %s (the pairing with excluded_dofs_ck is by position)' % (list(cc.attrs['excluded_dofs']), excl))
             kuu, kuk = o.get('kuu'), o.get('kuk')
             conds = [cond_z3(c) if isinstance(c, Cond) else c for c in path.conds]
 
